@@ -300,7 +300,8 @@ def expand_strategy(tier):
         day0 = draw(st.integers(10957, 24000))          # 2000 .. 2035
         hours = sorted(draw(st.lists(st.sampled_from([0, 6, 12, 18]), min_size=1, max_size=2, unique=True)))
         times = sorted(set((day0 + dd) * 86400 + h * 3600 for dd in range(n_days) for h in hours))
-        leads = sorted(draw(st.lists(st.sampled_from([0, 6, 12, 18, 24, 30, 36, 48]), min_size=1, max_size=4, unique=True)))
+        fine = draw(st.sampled_from([False, False, True]))      # fractional lead times (half hours)
+        leads = sorted(draw(st.lists(st.sampled_from([0, 0.5, 1, 1.5, 2.5, 3, 6, 6.5, 12] if fine else [0, 6, 12, 18, 24, 30, 36, 48]), min_size=1, max_size=4, unique=True)))
         n_loc = draw(st.integers(1, 3))
         locs = [{"id": i * 5 + 2, "lat": 10.25 * i - 3, "lon": 100.5 - 7 * i, "elev": 12.5 * i} for i in range(n_loc)]
         valid = sorted(set(t + int(l * 3600) for t in times for l in leads))
@@ -315,7 +316,7 @@ def expand_strategy(tier):
         spec = {"times": times, "leadtimes": [float(l) for l in leads], "locs": locs, "var": {"name": "Temp", "units": "K", "x0": None, "x1": None},
                 "inputs": [{"name": "f0", "ti": list(range(len(times))), "li": list(range(len(leads))), "si": list(range(n_loc)), "obs": obs, "fcst": fcst}], "clim": None}
         init = sorted(draw(st.lists(st.sampled_from([0, 3, 6, 12, 18]), min_size=1, max_size=3, unique=True)))
-        olt = sorted(draw(st.lists(st.sampled_from([0, 3, 6, 12, 18, 24, 36, 42, 60]), min_size=1, max_size=4, unique=True)))
+        olt = sorted(draw(st.lists(st.sampled_from([0, 0.5, 1, 1.5, 2.5, 3, 6, 6.5, 12, 12.5] if fine else [0, 3, 6, 12, 18, 24, 36, 42, 60]), min_size=1, max_size=4, unique=True)))
         return {"spec": spec, "init": init, "lt": olt, "kind": draw(st.sampled_from(["text", "netcdf"]))}
     return s()
 
@@ -327,7 +328,7 @@ def check_expand(case, ctx):
     d = spec["inputs"][0]
     base, path = write_input(ctx, spec, case["kind"])
     out_path = os.path.join(base, "out.nc")
-    argv = [path, "-o", out_path, "-i", ",".join("%d" % h for h in case["init"]), "-lt", ",".join("%d" % l for l in case["lt"])]
+    argv = [path, "-o", out_path, "-i", ",".join("%d" % h for h in case["init"]), "-lt", ",".join(("%d" % l) if float(l) == int(l) else repr(float(l)) for l in case["lt"])]
     code, exc, outp = run_script("expandverif.py", argv)
     ctx.evals += 1
     sub = dict(case)
@@ -381,6 +382,8 @@ def check_expand(case, ctx):
                     if not cmpx.close(g, e, 1e-6):
                         ctx.fail("C20/expandverif/match", sub, "obs at init %r lead %r location %r is %r, the input observation valid then is %r" % (t, l, i_d, g, e))
                         return
+    if any(float(l) != int(l) for l in case["lt"]):
+        ctx.label("expand/fractional-lead-time")
     if len(case["init"]) >= 2 and len(inits_with_match) >= 2:
         ctx.nt(("expand", times, leads, case["init"], case["lt"], d["obs"]))
         ctx.label("nontrivial")
